@@ -674,7 +674,8 @@ class GroupBy:
             if isinstance(orig_type, pl.DataType):
                 series = pl.Series(arr, dtype=orig_type)
                 arrow = series.to_arrow()
-                arr = arrow.to_numpy()
+                # NaT results become Arrow nulls, which cannot be viewed without a copy
+                arr = arrow.to_numpy(zero_copy_only=False)
                 dtype = pd.ArrowDtype(arrow.type)
             else:
                 arr = arr.view(int)
